@@ -1,6 +1,21 @@
 """Which properties are claimed, at which level, with which technique (source of MANIFEST.json)."""
 
 CLAIMED = {
+    "C01": dict(
+        level="other",
+        text="Table-driven codec decided from its tables: for all 23 PDU/item classes the encoder rows are "
+        "compared position by position with a hand transcription of PS3.8 9-11..9-26 / PS3.7 Annex D; all "
+        "length properties are summarised symbolically on every path and compared with what follows the "
+        "length field; decoder offsets (including length-dependent generator forms) are matched against the "
+        "encoder's cumulative offsets, widths, unpackers and coverage; type tables, helper encoders and "
+        "from/to_primitive parameter sets are cross-checked. Holds for every field value because no rule "
+        "depends on a value. 'other' rather than 'proof': value-level string handling is not decided.",
+        note="Trusted: CPython ast; spec/ps3_8_pdu_layout.json; the symbolic length/offset model in sa/pdu_model.py "
+        "(any unmodelled expression shape is ANALYSIS-ERROR). Not decided: set_ae/set_uid/decode_bytes semantics, "
+        "i.e. which strings are accepted or stripped.",
+        technique="static evaluation of encoder/decoder tables + symbolic (affine) length and offset summaries, compared with a spec transcription (ast)",
+        ref="4/C01",
+    ),
     "C04": dict(
         level="proof",
         text="Finite and exhaustive: all 247 (event, state) pairs of TRANSITION_TABLE compared with a "
